@@ -9,20 +9,27 @@ PROP = Property(
         attach=[(RP, "contracts/mithril-resource-pool/c18_resource_pool.rs", "verif_c18")],
         anchors=[(RP, "acquire_resource", None), (RP, "give_back_resource", None), (RP, "give_back_resource_pool_item", None),
                  (RP, "set_discriminant", None), (RP, "clear", None), (RP, "drop", "Drop for ResourcePoolItem")],
-        harnesses=[
-            H("c18_new_establishes_inv", "bounded", "new(size, vec![]) establishes Inv, generation 0", ["ResourcePool::new"], bound="size <= 3"),
-            H("c18_give_back_resource_contract", "bounded", INV + " kept; admitted <=> d == discriminant and len < size; frame: other queued resources untouched", ["ResourcePool::give_back_resource", "ResourcePool::count", "ResourcePool::discriminant"], bound="size <= 3; arbitrary Inv state"),
-            H("c18_acquire_contract", "bounded", "non-empty: returns the front, item.generation == current generation, item.discriminant() == generation; Inv kept; order kept", ["ResourcePool::acquire_resource", "ResourcePoolItem::new"], bound="size <= 3; arbitrary Inv state"),
-            H("c18_return_by_give_back_resource_pool_item", "bounded", "acquire; optional refresh (new generation, clear, refill); give_back_resource_pool_item(item): Inv kept; after a refresh the item is NOT re-admitted; frame", ["ResourcePool::give_back_resource_pool_item"], bound="size <= 3"),
-            H("c18_return_by_drop", "bounded", "same with implicit give-back on drop", ["Drop for ResourcePoolItem"], bound="size <= 3"),
-            H("c18_return_by_give_back_resource", "bounded", "same with explicit give_back_resource(resource, item.discriminant())", ["ResourcePool::give_back_resource", "ResourcePoolItem::discriminant"], bound="size <= 3"),
-            H("c18_refresh_and_reset_keep_inv", "bounded", "reset_available_resources is a frame-only operation; set_discriminant+clear gives an empty pool of the new generation", ["ResourcePool::reset_available_resources", "ResourcePool::set_discriminant", "ResourcePool::clear", "ResourcePool::count", "ResourcePool::size"], bound="size <= 3"),
-            H("c18_three_operations_keep_inv", "bounded", "any 3 operations (acquire / give back item / drop item / refresh+refill / reset) from any Inv state keep Inv; every resource handed out has the current generation", ["ResourcePool (all operations)"], bound="size <= 3, 3 operations, 1 outstanding item", timeout=900),
-        ])],
+        harnesses=[H("c18_new_establishes_inv", "bounded", "new(size, vec![]) establishes Inv, generation 0", ["ResourcePool::new"], bound="size <= 3")]
+        + [H("c18_give_back_resource_contract_%d_%d" % sh, "bounded", INV + " kept; admitted <=> d == discriminant and len < size; frame: other queued resources untouched",
+             ["ResourcePool::give_back_resource", "ResourcePool::count", "ResourcePool::discriminant"], bound="pool shape (capacity, queued) = %s; arbitrary generation / identities" % (sh,))
+           for sh in [(0, 0), (1, 0), (1, 1), (2, 1), (2, 2)]]
+        + [H("c18_acquire_contract_%d_%d" % sh, "bounded", "non-empty: returns the front, item.generation == current generation, item.discriminant() == generation; Inv kept; order kept",
+             ["ResourcePool::acquire_resource", "ResourcePoolItem::new"], bound="pool shape %s" % (sh,)) for sh in [(1, 1), (2, 1), (2, 2)]]
+        + [H("c18_return_by_give_back_resource_pool_item_%d_%d" % sh, "bounded", "acquire; optional refresh (new generation, clear, refill); give_back_resource_pool_item(item): Inv kept; after a refresh the item is NOT re-admitted; frame",
+             ["ResourcePool::give_back_resource_pool_item"], bound="pool shape %s" % (sh,), timeout=900, replay="custom:replay_stale_item_returned_by_give_back_resource_pool_item,replay_pool_never_exceeds_its_size", tier=("quick" if sh == (1, 1) else "thorough")) for sh in [(1, 1), (2, 1), (2, 2)]]
+        + [H("c18_return_by_drop_%d_%d" % sh, "bounded", "same with implicit give-back on drop", ["Drop for ResourcePoolItem"], bound="pool shape %s" % (sh,), timeout=900, replay="custom:replay_stale_item_returned_by_drop,replay_pool_never_exceeds_its_size", tier=("quick" if sh == (1, 1) else "thorough")) for sh in [(1, 1), (2, 1), (2, 2)]]
+        + [H("c18_return_by_give_back_resource_%d_%d" % sh, "bounded", "same with explicit give_back_resource(resource, item.discriminant())",
+             ["ResourcePool::give_back_resource", "ResourcePoolItem::discriminant"], bound="pool shape %s" % (sh,), timeout=900, replay="custom:replay_stale_item_returned_by_give_back_resource,replay_pool_never_exceeds_its_size", tier=("quick" if sh == (1, 1) else "thorough")) for sh in [(1, 1), (2, 2)]]
+        + [H("c18_refresh_and_reset_keep_inv_%d_%d" % sh, "bounded", "reset_available_resources is a frame-only operation; set_discriminant+clear gives an empty pool of the new generation",
+             ["ResourcePool::reset_available_resources", "ResourcePool::set_discriminant", "ResourcePool::clear", "ResourcePool::count", "ResourcePool::size"], bound="pool shape %s" % (sh,)) for sh in [(1, 1), (2, 2)]]
+        + [H("c18_three_operations_keep_inv_%d_%d" % sh, "bounded", "any 3 operations (acquire / give back item / drop item / refresh+refill / reset) from any Inv state keep Inv; every resource handed out has the current generation",
+             ["ResourcePool (all operations)"], bound="pool shape %s, 3 operations, 1 outstanding item" % (sh,), timeout=1500, tier="thorough") for sh in [(1, 1), (2, 1)]]
+        )],
+    replays=[dict(crate="mithril-resource-pool", file=RP, module="replays/c18_pool.rs")],
     assumptions=[
         "Kani has no threads: contracts cover every sequential history of operations (which is what stale re-admission needs); interleavings inside one operation (count() is read before the queue lock is taken in give_back_resource) are not covered",
         "Condvar::notify_one stubbed (futex); acquire on an empty pool (Condvar::wait_timeout) is not exercised: the wake-up/timeout clause is not decided",
-        "pool capacity bounded by 3 in the harnesses (the per-operation contracts start from an arbitrary invariant-satisfying state of that capacity, so together they are an induction over histories of any length for capacity <= 3)",
+        "pool capacity <= 2 in the harnesses, one harness per shape (capacity, queue length) with symbolic generation and resource identities; the per-operation contracts start from an arbitrary invariant-satisfying state of that shape, so together they are an induction over histories of any length for capacity <= 2",
         "give_back_resource's discriminant argument equals the generation the resource was created for (read off the two call sites in mithril-aggregator prover.rs / prover_legacy.rs)",
         "std Mutex/VecDeque executed as compiled (atomics sequential)",
     ],
